@@ -26,7 +26,7 @@ def run(ctx):
         cs = [c for c in cs if "world" not in c["prog"] and "check" not in c]
         cs.sort(key=lambda c: c["id"])
         # families about what a back-end keeps per loop / per call are taken whole
-        must = ("/outerjump/", "/loopcall/", "/range2/nested", "/multicall/", "/tuple/", "/grow/string/L1/", "/grow/bool/L2/", "/grow/int/L0/", "/copy/", "/punct/", "/jumpsite/", "/reeval/", "/nestleaf", "/guardtail/", "/selfassign/bool/")
+        must = ("/outerjump/", "/loopcall/", "/range2/nested", "/multicall/", "/tuple/", "/grow/string/L1/", "/grow/bool/L2/", "/grow/int/L0/", "/copy/", "/punct/", "/jumpsite/", "/reeval/", "/nestleaf", "/guardtail/", "/selfassign/bool/", "/numstr/")
         cases += [c for i, c in enumerate(cs) if i % stride == 0 or any(m in c["id"] for m in must)]
     # label allocation: nesting/sequencing shapes, many functions (spec/FamC16.tla), builtins that cannot run are dropped as unsupported
     shapes = ctx.tlc_family("FamC16", constants={"Tier": '"quick"'})
